@@ -250,6 +250,12 @@ func TestTry(t *testing.T) {
 				fp := plan
 				fp.Sched.Strategy = "follow"
 				fp.Sched.Follow = res.Trace
+				if len(res.Trace) > 20000 {
+					// too long to be a useful decision list: plan + schedule seed already replay exactly
+					hb, _ := json.Marshal(hit)
+					fmt.Printf("TRY-HIT %s\n", hb)
+					return
+				}
 				fres := RunPlan(t, sc, &fp, false)
 				for _, fv := range fres.Violations {
 					if fv.Property == rf.Property && fv.Sig == rf.Expect.Sig {
